@@ -77,6 +77,7 @@ type VFlow struct {
 	decoded  map[*ssa.Alloc]bool                     // allocations handed to encoding/xml decoders
 	objMemo  map[ssa.Value]LabelSet
 	allocIdx map[string]*ssa.Alloc
+	ctx      []ssa.CallInstruction // call-site context of the query in progress (innermost last)
 }
 
 // transparent transformers: result is derived from the listed operands only.
@@ -237,7 +238,7 @@ func (vf *VFlow) walk(v ssa.Value, fl uint8, out LabelSet, seen map[string]bool,
 	if v == nil {
 		return
 	}
-	k := fmt.Sprintf("%p/%d", v, fl)
+	k := fmt.Sprintf("%p/%d/%s", v, fl, vf.ctxKey())
 	if seen[k] {
 		return
 	}
@@ -277,10 +278,30 @@ func (vf *VFlow) walk(v ssa.Value, fl uint8, out LabelSet, seen map[string]bool,
 			out.add("param:"+w.FuncKey(fn)+"/"+x.Name(), fl)
 			return
 		}
+		// call-site sensitivity: inside the evaluation of a call's result, the callee's parameters are
+		// the arguments of that very call
+		if n := len(vf.ctx); n > 0 {
+			top := vf.ctx[n-1]
+			for _, tg := range vf.targets(top) {
+				if tg == fn {
+					args := top.Common().Args
+					if idx < len(args) {
+						saved := vf.ctx
+						vf.ctx = append([]ssa.CallInstruction(nil), vf.ctx[:n-1]...)
+						vf.walk(args[idx], fl, out, seen, depth+1)
+						vf.ctx = saved
+					}
+					return
+				}
+			}
+		}
 		for _, c := range cs {
 			args := c.Common().Args
 			if idx < len(args) {
+				saved := vf.ctx
+				vf.ctx = nil
 				vf.walk(args[idx], fl, out, seen, depth+1)
+				vf.ctx = saved
 			}
 		}
 	case *ssa.FreeVar:
@@ -458,6 +479,11 @@ func (vf *VFlow) callResult(t ssa.Value, idx int, fl uint8, out LabelSet, seen m
 	}
 	tgs := vf.targets(c)
 	if len(tgs) > 0 {
+		push := len(vf.ctx) < 6
+		saved := vf.ctx
+		if push {
+			vf.ctx = append(append([]ssa.CallInstruction(nil), vf.ctx...), c)
+		}
 		for _, tg := range tgs {
 			for _, ret := range returnsOf(tg) {
 				if idx < len(ret.Results) {
@@ -465,6 +491,7 @@ func (vf *VFlow) callResult(t ssa.Value, idx int, fl uint8, out LabelSet, seen m
 				}
 			}
 		}
+		vf.ctx = saved
 		return
 	}
 	name := calleeName(c)
@@ -572,6 +599,9 @@ func (vf *VFlow) allocByLabel(l string) *ssa.Alloc {
 
 // objLabels: the objects an address / pointer / aggregate value may denote.
 func (vf *VFlow) objLabels(v ssa.Value, depth int) LabelSet {
+	if len(vf.ctx) > 0 {
+		return vf.objLabelsCtx(v, depth)
+	}
 	if m, ok := vf.objMemo[v]; ok {
 		return m
 	}
@@ -999,4 +1029,59 @@ func (r *Report) checkSources(rule, key, pos string, got LabelSet, allowed, requ
 	}
 	r.Fail(rule, key, pos, d)
 	return false
+}
+
+func (vf *VFlow) ctxKey() string {
+	if len(vf.ctx) == 0 {
+		return ""
+	}
+	s := ""
+	for _, c := range vf.ctx {
+		s += fmt.Sprintf("%p,", c)
+	}
+	return s
+}
+
+// objLabelsCtx: objLabels under a call-site context (not memoised).
+func (vf *VFlow) objLabelsCtx(v ssa.Value, depth int) LabelSet {
+	out := LabelSet{}
+	if depth > 60 {
+		out.add("opaque:depth", 0)
+		return out
+	}
+	switch x := v.(type) {
+	case *ssa.Alloc:
+		out.add(vf.allocLabel(x), 0)
+		if vf.decoded[x] {
+			out.add("decoded:"+typeKey(x.Type().Underlying().(*types.Pointer).Elem()), 0)
+		}
+	case *ssa.FreeVar:
+		if cell := vf.cx.Fx.ownerCell(x); cell != nil {
+			out.add(vf.allocLabel(cell), 0)
+		} else {
+			out.add("opaque:freevar", 0)
+		}
+	case *ssa.FieldAddr:
+		fv := fieldVar(x.X.Type(), x.Field)
+		for l := range vf.objLabelsCtx(x.X, depth+1) {
+			if !strings.HasPrefix(l, "via:") {
+				out.add(l+"."+fv.Name(), 0)
+			}
+		}
+	case *ssa.IndexAddr:
+		for l := range vf.objLabelsCtx(x.X, depth+1) {
+			if !strings.HasPrefix(l, "via:") {
+				out.add(l+"[]", 0)
+			}
+		}
+	default:
+		ls := LabelSet{}
+		vf.walk(v, 0, ls, map[string]bool{}, depth+1)
+		for l := range ls {
+			if !strings.HasPrefix(l, "via:") {
+				out.add(l, 0)
+			}
+		}
+	}
+	return out
 }
